@@ -143,6 +143,7 @@ def resOk (c : Case) (res : String) : Bool :=
   else if c.fam.startsWith "grow-" then res == "mem" || res == "err" || res == "deadline"
   else if c.fam.startsWith "nest-" then res == "ok" || res == "depth" || res == "err" || res == "deadline" || res == "parse"
   else if c.fam.startsWith "dag-" then res == "ok" || res == "deadline" || res == "mem" || res == "err"
+  else if c.fam.startsWith "deepval-" then res == "ok" || res == "deadline" || res == "mem" || res == "err"
   else false
 
 def timeOk (c : Case) (o : Obs) : Bool := c.t == 0 || o.wall ≤ c.t + slackMs
@@ -165,6 +166,10 @@ def klassOf (c : Case) (o : Obs) : String :=
   else if c.fam.startsWith "dag-" then
     if o.exit == "killed" || o.exit == "fatal:oom" || (o.exit == "ok" && (!rssOk o || !timeOk c o) && resOk c o.res)
     then "shared-structure-exponential-traversal" else ""
+  else if c.fam.startsWith "deepval-" then
+    -- C07: a value nested ~10^6 deep (built by a loop, no deep source, no deep evaluation) makes Cmp / Inspect / Hashable
+    -- recurse past the Go stack limit: `fatal error: stack overflow`, which no recover() catches
+    if o.exit == "fatal:stackoverflow" || o.exit == "fatal:oom" || o.exit == "killed" then "deeply-nested-value-overflows-go-stack" else ""
   else if c.fam.startsWith "nest-" then
     if o.exit == "killed" || (o.exit == "ok" && !timeOk c o && resOk c o.res) then "deeply-nested-source-overruns-deadline" else ""
   else ""
